@@ -167,6 +167,13 @@ func c06Handshake() {
 	c06Check(ps, tn, eio, 1, interval, timeout, maxPayload, enW, enT, allowUp, initial, rec)
 	// a second session of the same server gets the same treatment
 	c06Check(ps, transports.POLLING, "4", 2, interval, timeout, maxPayload, enW, enT, allowUp, initial, rec)
+	// the first session's open packet may still be waiting to be encoded by its transport's
+	// writer when the second handshake runs: it must still be the FIRST session's packet
+	if len(ps.made) == 2 {
+		if pk := ps.made[0].flat(); len(pk) > 0 && pk[0].Type == packet.OPEN {
+			verif.Assert(verif.JSONString(bytesOf(pk[0].Data), "sid") == ps.made[0].Sid(), "a session's open packet still carries its own id after a later handshake")
+		}
+	}
 	verif.Assert(rec.count("connection_error") == 0, "no connection_error for admitted handshakes")
 }
 
